@@ -72,7 +72,9 @@ def check_integrity(h):
                                 'sigkey': 'ind-unknown-token', 'sig': {'kind': 'ind-unknown-token'}})
                     continue
                 exp = payload(seed, tok, 'rq', r.rq)
-                if data != exp:
+                if data != exp and _wrap_alias(h, tok, data, exp):
+                    h.w.probe('c05-wrap-alias-exempt')
+                elif data != exp:
                     out.append({'clause': 'C05.a', 'detail': 'server %s indicated tok=%x with %d octets, submitted %d octets (%s)'
                                 % (name, tok, len(data), len(exp), _diff(data, exp)), 'sigkey': 'ind-payload',
                                 'sig': {'kind': 'ind-payload', 'how': _diff_kind(data, exp)}})
@@ -92,11 +94,41 @@ def _check_ack(h, name, seq, tok, data, iocb_tok):
         return [{'clause': 'C05.a', 'detail': 'client %s confirmed ack with unknown token %r at seq %d' % (name, tok, seq),
                  'sigkey': 'ack-unknown-token', 'sig': {'kind': 'ack-unknown-token'}}]
     exp = payload(h.w.seed, tok, 'rs', r.rs)
+    if data != exp and _wrap_alias(h, tok, data, exp):
+        h.w.probe('c05-wrap-alias-exempt')
+        return []
     if data != exp:
         return [{'clause': 'C05.a', 'detail': 'client %s confirmed tok=%x with %d octets, server submitted %d octets (%s)'
                  % (name, tok, len(data), len(exp), _diff(data, exp)), 'sigkey': 'ack-payload',
                  'sig': {'kind': 'ack-payload', 'how': _diff_kind(data, exp)}}]
     return []
+
+
+def _wrap_alias(h, tok, data, exp):
+    """Sequence numbers are 8 bits wide: a late network copy of segment j that
+    arrives exactly when the receiver expects segment j + 256k is, for ANY
+    receiver, indistinguishable from the right one.  A delivered message that
+    differs from the submitted one only in whole segments i which are verbatim
+    copies of submitted segment j == i (mod 256), j != i, is that protocol
+    ambiguity and not an implementation failure (DESIGN 12.2)."""
+    if len(data) != len(exp):
+        return False
+    a = service_data(tok, data)
+    b = service_data(tok, exp)
+    sizes = set()
+    for f in h.w.tx:
+        n, ap = txn.decode_lan_frame(f['octets'])
+        if ap is not None and ap['type'] in (wire.T_CONF, wire.T_CACK) and ap['seg'] and ap['seq'] == 0 and ap['mor']:
+            sizes.add(len(ap['data']))
+    for S in sorted(sizes):
+        if S <= 0 or len(a) <= 256 * S:
+            continue
+        A = [a[i:i + S] for i in range(0, len(a), S)]
+        B = [b[i:i + S] for i in range(0, len(b), S)]
+        diff = [i for i in range(len(A)) if A[i] != B[i]]
+        if diff and all(any(A[i] == B[j] for j in range(i % 256, len(B), 256) if j != i) for i in diff):
+            return True
+    return False
 
 
 def _diff_kind(a, b):
@@ -181,22 +213,34 @@ def check_wire(h):
                 exp, tok = _expected(h, resp_events, key, seq)
                 if exp is None:
                     continue
-                x = _Xfer()
-                x.expected = exp
-                x.tok = tok
-                x.seg = len(a['data'])
-                x.count = max(1, -(-len(exp) // x.seg)) if x.seg else 1
-                x.acked = -1
-                x.win = None
-                x.proposed = a['win']
-                xf[key] = x
+                if x is not None and x.acked < 0 and x.tok == tok and x.expected == exp and x.seg == len(a['data']):
+                    # retransmission of the first segment of the same transfer: what the peer has declared so far stands
+                    pass
+                else:
+                    x = _Xfer()
+                    x.expected = exp
+                    x.tok = tok
+                    x.seg = len(a['data'])
+                    x.count = max(1, -(-len(exp) // x.seg)) if x.seg else 1
+                    x.acked = -1
+                    x.win = None
+                    x.proposed = a['win']
+                    xf[key] = x
                 if not (1 <= a['win'] <= 127):
                     viol(key, 'proposed-window-range', '%s first segment proposes window %d' % (node, a['win']))
                 if x.seg == 0:
                     viol(key, 'empty-first-segment', '%s emitted an empty first segment' % node)
                     continue
             else:
-                if x.acked < 0:
+                if x.acked < 0 and x.win:
+                    # a segment-ack of the peer for this invoke id was delivered since the first segment went out, it does not
+                    # cover segment 0 (a late copy from an identical earlier exchange): the window it declares is the only
+                    # agreement the sender can know of, so the statement's bound is that window counted from segment 0
+                    w.probe('c05-window-from-uncovering-ack')
+                    if idx > x.acked + x.win:
+                        viol(key, 'window-overrun', '%s emitted segment index %d of invoke %d with no segment acknowledged and declared window %d'
+                             % (node, idx, a['invoke'], x.win))
+                elif x.acked < 0:
                     viol(key, 'unacked-first', '%s emitted segment index %d (seq %d) of invoke %d although no segment-ack for segment 0 was delivered to it'
                          % (node, idx, sq, a['invoke']))
                 elif idx > x.acked + x.win:
